@@ -70,6 +70,27 @@ fn diff_script(m: &VfsPath, p: &VfsPath, path: &str, len: u64, script: &[ROp], t
                     return Err(format!("read handle of '{}': read_to_end gives {:?} bytes on MemoryFS but {:?} on PhysicalFS", path, a.map(|_| va.len()).map_err(|e| e.to_string()), b.map(|_| vb.len()).map_err(|e| e.to_string())));
                 }
             }
+            ROp::Drain(k) => {
+                let piece = drain_piece(*k, len);
+                let drain = |h: &mut dyn std::io::Read| -> Result<Vec<u8>, String> {
+                    let mut out = vec![];
+                    let mut buf = [0u8; 2048];
+                    for _ in 0..400_000 {
+                        match h.read(&mut buf[..piece]) {
+                            Ok(0) => return Ok(out),
+                            Ok(n) => out.extend_from_slice(&buf[..n.min(piece)]),
+                            Err(e) => return Err(e.to_string()),
+                        }
+                    }
+                    Err("no end of file after 400000 reads".into())
+                };
+                let a = drain(&mut hm);
+                let b = drain(&mut hp);
+                trace.push(format!("  script drain in pieces of {} -> mem {:?} / phys {:?}", piece, a.as_ref().map(|v| v.len()), b.as_ref().map(|v| v.len())));
+                if a != b {
+                    return Err(format!("read handle of '{}': reading to the end in pieces of {} gives {:?} bytes on MemoryFS but {:?} on PhysicalFS (or different bytes)", path, piece, a.map(|v| v.len()), b.map(|v| v.len())));
+                }
+            }
             ROp::Read(k, n) | ROp::ReadExact(k, n) => {
                 let want = read_size(*k, *n, len as usize);
                 let a = read_full(&mut hm, want);
